@@ -56,6 +56,21 @@ CHECKS = {
  "C35": ("concmon", "exploration", "lock-shim event monitor: live wait-for-graph cycle detection + per-operation progress watchdog + accumulated lock-order graph over seeded multi-thread stress of all public operations",
          "Held on the explored runs: no persistent wait-for cycle among lock waiters, every operation completed, no gate-free cycle in the accumulated lock-order graph. 'Forever' is restated as bounded progress.",
          "Interleavings inside std's lock implementations are not controlled; a watchdog firing without a cycle is inconclusive.", "DESIGN.md §4.3 C35"),
+ "C18": ("storemon", "exploration", "online page-ownership monitor over the pager's allocate/ensure/write/free events (page hook) + reference-model monitor of the dump before and after reopen, on generated growth histories",
+         "Held on the generated growth histories apart from the listed known finding: no structure class wrote or claimed a page owned by another, and the dump equalled the model before and after reopen; histories cross the 512- and 1024-record boundaries of the node table with other structures allocating in between.",
+         "Owner = class (source file) that allocated the page; a history step that fails for another reason ends the case as inconclusive.", "DESIGN.md §4.2 C18"),
+ "C28": ("storemon", "exploration", "differential monitor: vacuumed database vs byte copy of the same closed database, all read views incl. index lookups and vector searches, continued writes and a further reopen on both",
+         "Held on the generated histories: vacuum succeeded, the vacuumed database opened and agreed with its un-vacuumed copy on every read view, after a generated continuation of writes and after one more reopen.",
+         "The un-vacuumed copy is the reference, so defects recorded under other properties cancel out.", "DESIGN.md §4.2 C28"),
+ "C30": ("storemon", "exploration", "differential monitor: bulk-loaded vs transactionally loaded database from one generated input; dump views, Cypher view and ~45 generated queries, again after compaction+reopen and after a later write",
+         "Held on the generated inputs: both databases agreed on every dump view, the Cypher view and every generated query, fresh, after compaction+reopen and after the same later transaction.",
+         "Inputs respect the bulk API (one label per node, unique external ids).", "DESIGN.md §4.2 C30"),
+ "C31": ("storemon", "exploration", "online result monitor for vector search against a brute-force reference over generated insert/re-insert/delete/compact/reopen sequences, with NERVUSDB_HNSW_M=4 and default",
+         "Held on the generated sequences apart from the listed known finding: at most k distinct live nodes with vectors, non-decreasing exact Euclidean distances, exactly the k nearest while the index holds at most 2m+1 vectors, results unchanged by reopen.",
+         "Relative tolerance 1e-4 on distances; random HNSW levels: witnesses are re-executed 5 times.", "DESIGN.md §4.2 C31"),
+ "C32": ("storemon", "exploration", "clock-hook controlled identity allocation (stalled/backward/alternating/1 ns per call/real) under create-heavy Cypher histories; uniqueness and stability monitor over all internal->external pairs after every step",
+         "Held on the generated histories: no statement failed on identity allocation, all external ids were distinct, and no node's identity changed across later statements, compaction and reopen.",
+         "The controlled clock returns only values a real clock can return.", "DESIGN.md §4.2 C32"),
 }
 
 checks = []
